@@ -55,6 +55,7 @@ def main():
                 print(sid, p, "exit", c.returncode, (lines[0] if lines else "no violation line")[:120], "|", why[:160], flush=True)
         finally:
             sh("git -C %s checkout -- ." % REPO)
+        json.dump(results, open(os.path.join(ROOT, "seeded", "results.json"), "w"), indent=1, sort_keys=True)
     json.dump(results, open(os.path.join(ROOT, "seeded", "results.json"), "w"), indent=1, sort_keys=True)
     # restore generated files for the unchanged tree
     sh("python3 tools/vp.py check C12 --tier quick", cwd=ROOT)
